@@ -1,4 +1,5 @@
 """C12 - patterns, switch, runtime type annotations (static clauses)."""
+import re
 from .core import (CheckError, find_match, arm_region, pat_str, strip_ref, short, only_when,
                    Registry, every_path_passes_correlated, pat_subsumes, pat_disjoint)
 
@@ -315,6 +316,49 @@ def run(F, rep, tier):
             else:
                 rep.viol('R12.5', '%s|Overflow:Sub|#%d' % (aa, n), 'usize subtraction of lengths not dominated by a comparison (underflows on a too-short value)', ab.loc(bb))
         rep.floor('R12.5', 'subtractions in assign_all', n, 2)
+
+    # ---------------- R12.6
+    rep.rule('R12.6', 'operator patterns invert their constructor with the inverse operation (table over every Builtin::destructure override): '
+             'n + a uses subtraction, -x negation, a * b a remainder test and exact division, a / b numerator and denominator, xs +. x '
+             'unsnoc, x .+ xs uncons, and a chained comparison pattern accepts exactly when the comparison expression itself (the operator\'s own '
+             'run on the filled-in operands) is truthy', exhaustive=True)
+    inv = {'Plus': [r'std::ops::Sub'], 'Minus': [r'std::ops::Neg'], 'Times': [r'std::ops::Rem', r'div_floor$'], 'Divide': [r'::numer$', r'::denom$'],
+           'Append': [r'^unsnoc$'], 'Prepend': [r'^uncons$'], 'ComparisonOperator': [r'<ComparisonOperator as core::Builtin>::run$', r'Obj::truthy$']}
+    seen_d = set()
+    for imp in F.impls_of('core::Builtin'):
+        d = F.impl_fn(imp, 'destructure')
+        if not d or not F.has_fn(d):
+            continue
+        ty = imp['self_ty']
+        seen_d.add(ty)
+        b = F.body(d)
+        names = []
+        for bd in [b] + [F.body(c) for c in F.closures_of(d)]:
+            for c in bd.calls:
+                names.append(c.target)
+                if c.callee.get('tr'):
+                    names.append(c.callee['tr'])
+        if ty not in inv:
+            rep.viol('R12.6', 'destructure|%s|unlisted' % ty, 'builtin %s can be used as a pattern but its inverse is not in the reviewed table' % ty, b.loc(0))
+            continue
+        missing = [rx for rx in inv[ty] if not any(re.search(rx, n) for n in names)]
+        if missing:
+            rep.viol('R12.6', 'destructure|%s|inverse' % ty, 'the %s pattern no longer inverts its constructor through %s' % (ty, missing), b.loc(0))
+            continue
+        if ty == 'ComparisonOperator':
+            tr = [c for c in b.calls if c.target.endswith('Obj::truthy')]
+            oks = _ok_blocks(b)
+            runs = [c for c in b.calls if c.target == '<ComparisonOperator as core::Builtin>::run']
+            fed = any(r[0] == 'call' and r[1] == runs[0].target for r in b.roots(tr[0].args[0])) if tr and runs else False
+            if tr and oks and fed and only_when(b, tr[0], oks, want=True)[0]:
+                rep.ok('R12.6', 'ComparisonOperator pattern', 'Ok only when self.run(filled operands) is truthy')
+            else:
+                rep.viol('R12.6', 'destructure|ComparisonOperator|gate', 'the chained-comparison pattern does not gate success on the truthiness of the comparison expression itself', b.loc(0))
+        else:
+            rep.ok('R12.6', '%s pattern' % ty, 'inverse through %s' % inv[ty])
+    for ty in inv:
+        if ty not in seen_d:
+            rep.viol('R12.6', 'destructure|%s|missing' % ty, 'the documented operator pattern for %s has no destructure implementation' % ty, None)
 
     rep.undecided += ['which names a pattern binds to which parts (value semantics of patterns)',
                       'inverse-constructor patterns (n + 1, a / b, h .+ t) as functions of values',
